@@ -32,7 +32,7 @@ Step(ev) ==
          /\ v_acc' = <<>> /\ v_wfailed' = FALSE /\ v_lfailed' = FALSE /\ v_safe' = ev.safe /\ UNCHANGED v_ref
     [] ev.e = "w" ->
          /\ (IF v_wfailed THEN Rej("write-after-failed-write")                 \* FailedWriteIsLast
-             ELSE IF ev.ok /\ ~IsPrefixB(v_acc \o ev.d, v_ref.out) THEN Rej("not-a-prefix")   \* MainIsPrefixOfSuccess
+             ELSE IF v_ref.status # "oom" /\ ev.ok /\ ~IsPrefixB(v_acc \o ev.d, v_ref.out) THEN Rej("not-a-prefix")   \* MainIsPrefixOfSuccess
              ELSE TRUE)
          /\ v_acc' = IF ev.ok THEN v_acc \o ev.d ELSE v_acc
          /\ v_wfailed' = (v_wfailed \/ ~ev.ok)
@@ -41,6 +41,7 @@ Step(ev) ==
          /\ v_lfailed' = (v_lfailed \/ ~ev.ok) /\ UNCHANGED <<v_ref, v_acc, v_wfailed, v_safe>>
     [] ev.e = "ret" ->
          /\ (IF (v_wfailed \/ v_lfailed \/ v_ref.status = "err") /\ ev.ok THEN Rej("error-not-returned")       \* ErrReturned
+             ELSE IF v_ref.status = "oom" THEN TRUE              \* reference outside the model: only the fault clauses apply
              ELSE IF ev.ok /\ v_acc # v_ref.out THEN Rej("incomplete-output")
              ELSE IF ~ev.ok /\ ~(v_wfailed \/ v_lfailed \/ v_ref.status = "err") THEN Rej("unexpected-error")
              ELSE IF v_safe /\ ~ev.ok /\ v_acc # <<>> THEN Rej("safe-partial-output")                           \* SafeAllOrNothing
